@@ -11,6 +11,7 @@ import (
 	"fmt"
 	"io"
 	"net"
+	"os"
 	"sort"
 	"strconv"
 	"syscall"
@@ -96,6 +97,12 @@ type UDPSock struct {
 	Handler func(from *net.UDPAddr, data []byte) // actor sockets
 	Reads   int
 	Recvd   int
+
+	// Connected: the peer of a socket made with DialUDP. Such a socket sees only that peer's datagrams, and an ICMP
+	// port-unreachable answer to something it sent is reported once by its next Write or Read (as on Linux).
+	Connected *net.UDPAddr
+	pendErr   error
+	rdl, wdl  time.Time // read / write deadlines (zero: none)
 }
 
 type Faults struct {
@@ -106,6 +113,7 @@ type Faults struct {
 	ShortReadPct   int           // probability that a Read returns fewer bytes than available
 	MaxSegs        int
 	LatGrid        int // >0: latencies are drawn from this many equidistant values
+	UDPWriteErrPct int // probability that a datagram write of the program fails (ENOBUFS) and nothing is sent
 }
 
 type Net struct {
@@ -119,6 +127,7 @@ type Net struct {
 	DNS       *DNS
 
 	Emissions []*Emission
+	FailedUDP []*Emission // datagram writes of the program that returned an error (nothing was sent)
 	Events    []NetEvent
 	Fired     map[string]int // fault kinds that actually fired
 
@@ -261,9 +270,20 @@ func (n *Net) findUDP(dst *net.UDPAddr) *UDPSock {
 
 func (n *Net) arriveUDP(from, dst *net.UDPAddr, data []byte) {
 	s := n.findUDP(dst)
+	if s != nil && !s.closed && s.Connected != nil && !(s.Connected.IP.Equal(from.IP) && s.Connected.Port == from.Port) {
+		n.event("udp-not-from-connected-peer", from.String(), dst.String(), 0, "")
+		s = nil
+	}
 	if s == nil || s.closed {
 		n.Fired["udp-unreachable"]++
 		n.event("udp-unreachable", from.String(), dst.String(), 0, "")
+		if src := n.findUDP(from); src != nil && src.Proxy && src.Connected != nil && !src.closed {
+			// the ICMP answer travels back to a connected socket
+			n.K.After(n.latency(), "icmp-unreachable "+dst.String()+">"+from.String(), func() {
+				src.pendErr = &net.OpError{Op: "write", Net: "udp", Addr: dst, Err: syscall.ECONNREFUSED}
+				n.Fired["udp-icmp-to-connected-socket"]++
+			})
+		}
 		return
 	}
 	s.Recvd++
@@ -305,6 +325,27 @@ func (s *UDPSock) SendExact(dst *net.UDPAddr, data []byte, d time.Duration) {
 	s.n.K.After(d, "udp "+from.String()+">"+dst.String(), func() { s.n.arriveUDP(from, dst, data) })
 }
 
+// UDPOut is one datagram of a batch.
+type UDPOut struct {
+	Dst  *net.UDPAddr
+	Data []byte
+}
+
+// SendBatchExact delivers several datagrams after exactly d in ONE kernel event, in the given order: they are in the
+// receiver's socket queue back to back, in that order, before the receiver runs again (a sender that writes twice
+// without a pause). No fault draw.
+func (s *UDPSock) SendBatchExact(outs []UDPOut, d time.Duration) {
+	from := s.srcAddr()
+	n := s.n
+	name := fmt.Sprintf("udp-batch(%d) %s", len(outs), from.String())
+	n.Fired["udp-back-to-back-batch"]++
+	n.K.After(d, name, func() {
+		for _, o := range outs {
+			n.arriveUDP(from, o.Dst, o.Data)
+		}
+	})
+}
+
 // InjectUDP delivers a datagram with an arbitrary (possibly unbound) source.
 func (n *Net) InjectUDP(from, dst *net.UDPAddr, data []byte, d time.Duration) {
 	n.K.After(d, "udp "+from.String()+">"+dst.String(), func() { n.arriveUDP(from, dst, data) })
@@ -343,6 +384,58 @@ type listenUDPOp struct {
 func (o *listenUDPOp) Ready() bool    { return true }
 func (o *listenUDPOp) Do()            { o.s, o.err = o.n.bindUDP(o.laddr, true) }
 func (o *listenUDPOp) OpName() string { return "listen-udp" }
+
+type dialUDPOp struct {
+	n            *Net
+	laddr, raddr *net.UDPAddr
+	s            *UDPSock
+	err          error
+}
+
+func (o *dialUDPOp) Ready() bool { return true }
+func (o *dialUDPOp) Do() {
+	o.s, o.err = o.n.bindUDP(o.laddr, true)
+	if o.err == nil {
+		o.s.Connected = o.raddr
+	}
+}
+func (o *dialUDPOp) OpName() string { return "dial-udp" }
+
+// DialUDP makes a connected datagram socket.
+//
+//go:norace
+func DialUDP(network string, laddr, raddr *net.UDPAddr) (*UDPConn, error) {
+	n := N
+	if n == nil {
+		return nil, errors.New("simnet: no world")
+	}
+	if raddr == nil {
+		return nil, &net.OpError{Op: "dial", Net: network, Err: errors.New("missing address")}
+	}
+	var l *net.UDPAddr
+	if laddr != nil {
+		l = &net.UDPAddr{IP: cloneIP(laddr.IP), Port: laddr.Port}
+	}
+	op := &dialUDPOp{n: n, laddr: l, raddr: &net.UDPAddr{IP: cloneIP(raddr.IP), Port: raddr.Port}}
+	simrt.Trap(op, true)
+	if op.err != nil {
+		return nil, cloneErr(op.err)
+	}
+	return &UDPConn{s: op.s}, nil
+}
+
+// ListenPacket: datagram sockets only.
+func ListenPacket(network, address string) (net.PacketConn, error) {
+	switch network {
+	case "udp", "udp4", "udp6":
+		ip, port, err := resolveHostPort(network, address)
+		if err != nil {
+			return nil, err
+		}
+		return ListenUDP(network, &net.UDPAddr{IP: ip, Port: port})
+	}
+	return nil, fmt.Errorf("simnet: ListenPacket network %q not simulated", network)
+}
 
 //go:norace
 func ListenUDP(network string, laddr *net.UDPAddr) (*UDPConn, error) {
@@ -392,7 +485,7 @@ func cloneErr(err error) error {
 	case syscall.Errno:
 		return e
 	}
-	if err == io.EOF || err == net.ErrClosed {
+	if err == io.EOF || err == net.ErrClosed || err == os.ErrDeadlineExceeded || err == net.ErrWriteToConnected {
 		return err
 	}
 	return errors.New(err.Error())
@@ -427,10 +520,23 @@ type readUDPOp struct {
 	err  error
 }
 
-func (o *readUDPOp) Ready() bool { return len(o.s.queue) > 0 || o.s.closed }
+func (o *readUDPOp) Ready() bool {
+	s := o.s
+	return len(s.queue) > 0 || s.closed || s.pendErr != nil || (!s.rdl.IsZero() && !time.Now().Before(s.rdl))
+}
 func (o *readUDPOp) Do() {
-	if len(o.s.queue) == 0 {
+	if o.s.closed && len(o.s.queue) == 0 {
 		o.err = &net.OpError{Op: "read", Net: "udp", Err: net.ErrClosed}
+		return
+	}
+	if o.s.pendErr != nil {
+		o.err = &net.OpError{Op: "read", Net: "udp", Err: syscall.ECONNREFUSED}
+		o.s.pendErr = nil
+		return
+	}
+	if len(o.s.queue) == 0 {
+		o.err = &net.OpError{Op: "read", Net: "udp", Err: os.ErrDeadlineExceeded}
+		o.s.n.Fired["read-deadline-expired"]++
 		return
 	}
 	d := o.s.queue[0]
@@ -449,6 +555,7 @@ func (o *readUDPOp) OpName() string { return "read-udp" }
 //go:norace
 func (c *UDPConn) ReadFromUDP(b []byte) (int, *net.UDPAddr, error) {
 	op := &readUDPOp{s: c.s, max: len(b)}
+	armDeadlineWake(c.s.n, c.s.rdl)
 	simrt.Trap(op, true)
 	if op.err != nil {
 		return 0, nil, cloneErr(op.err)
@@ -485,6 +592,26 @@ func (o *writeUDPOp) Do() {
 		return
 	}
 	from := o.s.srcAddr()
+	if !o.s.wdl.IsZero() && !time.Now().Before(o.s.wdl) {
+		o.err = &net.OpError{Op: "write", Net: "udp", Err: os.ErrDeadlineExceeded}
+		n.Fired["write-deadline-expired"]++
+		n.event("udp-write-timeout", from.String(), o.dst.String(), 0, "")
+		return
+	}
+	if o.s.pendErr != nil {
+		o.err, o.s.pendErr = o.s.pendErr, nil
+		n.Fired["udp-write-econnrefused"]++
+		n.event("udp-write-refused", from.String(), o.dst.String(), 0, "")
+		n.FailedUDP = append(n.FailedUDP, &Emission{Seq: -1, Step: n.K.Step, At: n.K.Elapsed(), Proto: "udp", Src: from.String(), Dst: o.dst.String(), Data: o.data, G: o.g, Err: "econnrefused"})
+		return
+	}
+	if pct(n.K, n.F.UDPWriteErrPct) {
+		o.err = &net.OpError{Op: "write", Net: "udp", Addr: o.dst, Err: syscall.ENOBUFS}
+		n.Fired["udp-write-error"]++
+		n.event("udp-write-error", from.String(), o.dst.String(), 0, "enobufs")
+		n.FailedUDP = append(n.FailedUDP, &Emission{Seq: -1, Step: n.K.Step, At: n.K.Elapsed(), Proto: "udp", Src: from.String(), Dst: o.dst.String(), Data: o.data, G: o.g, Err: "enobufs"})
+		return
+	}
 	e := &Emission{Seq: len(n.Emissions), Step: n.K.Step, At: n.K.Elapsed(), Proto: "udp",
 		Src: from.String(), Dst: o.dst.String(), Data: o.data, G: o.g}
 	n.Emissions = append(n.Emissions, e)
@@ -504,6 +631,14 @@ func (c *UDPConn) WriteToUDP(b []byte, addr *net.UDPAddr) (int, error) {
 	if addr == nil {
 		return 0, &net.OpError{Op: "write", Net: "udp", Err: errors.New("missing address")}
 	}
+	if c.s.Connected != nil {
+		return 0, &net.OpError{Op: "write", Net: "udp", Err: net.ErrWriteToConnected}
+	}
+	return c.writeTo(b, addr)
+}
+
+//go:norace
+func (c *UDPConn) writeTo(b []byte, addr *net.UDPAddr) (int, error) {
 	g := simrt.Cur()
 	name := ""
 	if g != nil {
@@ -557,10 +692,78 @@ func (c *UDPConn) LocalAddr() net.Addr {
 	return &net.UDPAddr{IP: cloneIP(l.IP), Port: l.Port}
 }
 
-func (c *UDPConn) RemoteAddr() net.Addr               { return nil }
-func (c *UDPConn) SetDeadline(t time.Time) error      { return nil }
-func (c *UDPConn) SetReadDeadline(t time.Time) error  { return nil }
-func (c *UDPConn) SetWriteDeadline(t time.Time) error { return nil }
+//go:norace
+func (c *UDPConn) RemoteAddr() net.Addr {
+	if r := c.s.Connected; r != nil {
+		return &net.UDPAddr{IP: cloneIP(r.IP), Port: r.Port}
+	}
+	return nil
+}
+
+// Write sends to the connected peer (sockets made with DialUDP).
+//
+//go:norace
+func (c *UDPConn) Write(b []byte) (int, error) {
+	if c.s.Connected == nil {
+		return 0, &net.OpError{Op: "write", Net: "udp", Err: errors.New("destination address required")}
+	}
+	return c.writeTo(b, c.s.Connected)
+}
+
+func (c *UDPConn) Read(b []byte) (int, error) {
+	n, _, err := c.ReadFromUDP(b)
+	return n, err
+}
+
+// deadlines: kernel operations (scheduling points); a deadline that has passed fails the next Write at once and
+// wakes a blocked Read at its instant.
+type deadlineOp struct {
+	closed   func() bool
+	set      func()
+	netw     string
+	err      error
+}
+
+func (o *deadlineOp) Ready() bool { return true }
+func (o *deadlineOp) Do() {
+	if o.closed() {
+		o.err = &net.OpError{Op: "set", Net: o.netw, Err: net.ErrClosed}
+		return
+	}
+	o.set()
+}
+func (o *deadlineOp) OpName() string { return "set-deadline" }
+
+//go:norace
+func setDeadline(netw string, closed func() bool, set func()) error {
+	op := &deadlineOp{closed: closed, set: set, netw: netw}
+	simrt.Trap(op, true)
+	return cloneErr(op.err)
+}
+
+// armDeadlineWake makes sure a kernel that is letting time pass looks again at the instant dl.
+func armDeadlineWake(n *Net, dl time.Time) {
+	if dl.IsZero() {
+		return
+	}
+	if d := time.Until(dl); d > 0 {
+		k := n.K
+		time.AfterFunc(d, k.Poke)
+	}
+}
+
+func (c *UDPConn) SetDeadline(t time.Time) error {
+	s := c.s
+	return setDeadline("udp", func() bool { return s.closed }, func() { s.rdl, s.wdl = t, t })
+}
+func (c *UDPConn) SetReadDeadline(t time.Time) error {
+	s := c.s
+	return setDeadline("udp", func() bool { return s.closed }, func() { s.rdl = t })
+}
+func (c *UDPConn) SetWriteDeadline(t time.Time) error {
+	s := c.s
+	return setDeadline("udp", func() bool { return s.closed }, func() { s.wdl = t })
+}
 func (c *UDPConn) SetReadBuffer(int) error            { return nil }
 func (c *UDPConn) SetWriteBuffer(int) error           { return nil }
 
